@@ -1,4 +1,5 @@
 import Gaftools.Props.C17
+import Gaftools.Props.C17b
 #print axioms Gaftools.C17.voffset_lt
 #print axioms Gaftools.C17.plainOff_strictMono
 #print axioms Gaftools.C17.bgzfOff_strictMono
@@ -6,3 +7,8 @@ import Gaftools.Props.C17
 #print axioms Gaftools.C17.dedup_offsets
 #print axioms Gaftools.C17.select_parametric
 #print axioms Gaftools.C17.gsi_parametric
+#print axioms Gaftools.C17.plain_readAt
+#print axioms Gaftools.C17.resolve_voff
+#print axioms Gaftools.C17.bgzf_readAt
+#print axioms Gaftools.C17.voff_order
+#print axioms Gaftools.C17.plain_bgzf_agree
